@@ -451,6 +451,99 @@ def run_quaternion_log(ctx: Ctx) -> None:
         _guard(ctx, "T7.quat-log-exp", f"w={w},|v|={abs(a)},sign={'+' if a > 0 else '-'}", fL, f"unit quaternion w={w} a={a}", th)
 
 
+def run_angle_axis(ctx: Ctx) -> None:
+    """angle_axis_to_rotation_matrix: Rodrigues' formula for a rotation vector theta * k, and its first-order branch for tiny vectors."""
+    prog = ctx.prog
+    K = "deepali.core._kornia"
+    fA = prog.func(K, "angle_axis_to_rotation_matrix")
+    ctx.fn(fA)
+    ctx.rule("T7.angle-axis", "angle_axis_to_rotation_matrix(r): for r = theta k (unit axis k with rational components, symbolic theta beyond the "
+                              "small-angle threshold) the antisymmetric part of the matrix is a positive multiple of 2 sin(theta) [k]x (sense of "
+                              "rotation about +k; the value of the function's own axis regulariser is not prescribed) and R k is parallel to k; "
+                              "for tiny r (|r|^2 below the function's threshold) it is the first-order "
+                              "form I + [r]x of the *same* rotation (not of its inverse)")
+    axes = [(Fraction(2, 7), Fraction(3, 7), Fraction(6, 7)), (Fraction(0), Fraction(3, 5), Fraction(-4, 5)), (Fraction(1), Fraction(0), Fraction(0))]
+
+    def skew(v):
+        x, y, z = v
+        return STensor.from_nested([[0, -z, y], [z, 0, -x], [-y, x, 0]])
+
+    for k in axes:
+        def th(k=k):
+            reset_relations()
+            facts = fresh_facts()
+            it = make_interp(ctx)
+            th_ = Rat.atom("theta")
+            facts.declare_positive(th_)
+            facts.declare_positive(th_ * th_ - Fraction(1, 10 ** 6))  # beyond the function's small-angle threshold
+            s_ = sfunc("sin", th_)
+            r = STensor.from_flat([th_ * x for x in k], [1, 3])
+            R = it.call(fA, r)
+            got = R[0][:3, :3] if R.shape[-1] == 4 else R[0]
+            # the antisymmetric part carries the sense of rotation: R - R^T = 2 sin(theta) lam [k]x with lam > 0 (lam = theta / (theta + eps)
+            # with the function's own regulariser; its value is not prescribed, its sign is)
+            A = got.sub(got.t())
+            Kx = skew([Rat.of(x) for x in k])
+            mu = None
+            for i in range(3):
+                for j in range(3):
+                    kij = to_rat(Kx[i, j].flat()[0])
+                    if not kij.is_zero():
+                        mu = to_rat(A[i, j].flat()[0]) / kij
+                        break
+                if mu is not None:
+                    break
+            if not teq(A, Kx.mul(mu)):
+                return False, f"axis {k}: the antisymmetric part of the matrix is not proportional to [k]x"
+            lam = mu / (s_ * 2)
+            # cancel the common factor sin(theta) of numerator and denominator (the ring keeps fractions unreduced)
+            (s_atom,) = s_.num.atoms()
+
+            def strip(poly):
+                terms = {}
+                for m, c in poly.terms.items():
+                    d = dict(m)
+                    if d.get(s_atom, 0) < 1:
+                        return None
+                    d[s_atom] -= 1
+                    terms[tuple(sorted((a, e) for a, e in d.items() if e))] = c
+                return Poly(terms)
+            while True:
+                n2, d2 = strip(lam.num), strip(lam.den)
+                if n2 is None or d2 is None:
+                    break
+                lam = Rat(n2, d2)
+            sg = symt.FACTS.sign(lam)
+            if sg is None:
+                raise AnalysisError(f"angle-axis: cannot decide the sign of {lam}")
+            if sg <= 0:
+                return False, f"axis {k}: the matrix rotates about -k (antisymmetric part = {lam} * 2 sin(theta) [k]x)"
+            # the axis is fixed: R k = k up to the same positive factor structure (R k parallel to k)
+            kv = STensor.from_flat(list(k), [3, 1])
+            Rk = symt.matmul(got, kv)
+            nz = next(i for i in range(3) if k[i] != 0)
+            f_ = to_rat(Rk[nz, 0].flat()[0]) / k[nz]
+            if not teq(Rk, kv.mul(f_)):
+                return False, f"axis {k}: R k is not parallel to k"
+            return True, ""
+        _guard(ctx, "T7.angle-axis", f"rodrigues:k={k}", fA, f"rotation vector theta*{k}", th)
+
+    for r0 in ((Fraction(3, 10000), Fraction(4, 10000), Fraction(0)), (Fraction(-2, 70000), Fraction(3, 70000), Fraction(6, 70000))):
+        def tht(r0=r0):
+            reset_relations()
+            fresh_facts()
+            it = make_interp(ctx)
+            R = it.call(fA, STensor.from_flat(list(r0), [1, 3]))
+            got = R[0][:3, :3] if R.shape[-1] == 4 else R[0]
+            want = symt.eye(3).add(skew([Rat.of(x) for x in r0]))
+            if not teq(got, want):
+                inv = symt.eye(3).sub(skew([Rat.of(x) for x in r0]))
+                extra = " — it is the first-order matrix of the inverse rotation" if teq(got, inv) else ""
+                return False, f"tiny rotation vector {tuple(str(x) for x in r0)}: matrix {tstr(got)[:120]} is not I + [r]x{extra}"
+            return True, ""
+        _guard(ctx, "T7.angle-axis", f"small:{tuple(str(x) for x in r0)}", fA, f"tiny rotation vector {tuple(str(x) for x in r0)}", tht)
+
+
 # --------------------------------------------------------------------------- T8 parameter getters / setters of the rotation-like transforms
 def run_accessors(ctx: Ctx) -> None:
     """spatial/linear.py: squashing re-parameterisations and their inverses (C08, last mechanism)."""
